@@ -78,8 +78,21 @@ impl H {
     }
 }
 
-#[derive(Debug)]
 pub struct TagErr(pub u32);
+
+/// Tags 9000..=9003 render as several kilobytes of three-byte characters (after 0..3 bytes of ASCII padding), the
+/// way an error that echoes a path or a payload in some scripts does: whatever the framework does with the text of
+/// a hook's error - log it, truncate it, store it - happens on text of that kind too.
+impl std::fmt::Debug for TagErr {
+    fn fmt(&self, f: &mut std::fmt::Formatter<'_>) -> std::fmt::Result {
+        if (9000..=9003).contains(&self.0) {
+            let pad = "x".repeat((self.0 - 9000) as usize);
+            write!(f, "TagErr({}, {pad}{})", self.0, "\u{d55c}\u{ae00}".repeat(1500))
+        } else {
+            write!(f, "TagErr({})", self.0)
+        }
+    }
+}
 
 // ------------------------------------------------------------------ world (per execution)
 
@@ -359,7 +372,8 @@ impl Message<Msg> for SA {
     type Reply = Rep;
     async fn handle(&mut self, msg: Msg, actor_ref: &ActorRef<Self>) -> Rep {
         let (idx, owner) = (self.idx, self.owner);
-        let free = self.spec.free_handlers;
+        // (a message with an entry yield stays a scheduling point even among free-running handlers)
+        let free = self.spec.free_handlers && !msg.spec.entry_yield;
         Controlled::new(
             owner,
             msg.spec.entry_yield,
@@ -1770,6 +1784,7 @@ async fn controller(scn: Arc<Scenario>, chooser: &mut dyn Chooser) -> (Vec<StepR
     let mut steps: Vec<StepRec> = Vec::new();
     let mut last: Option<usize> = None;
     let mut drained = false;
+    let mut big_stride: u64 = 1000;
     let mut points = 0u64;
     let mut actions = 0u64;
     let mut granted: Option<usize> = None;
@@ -1805,6 +1820,23 @@ async fn controller(scn: Arc<Scenario>, chooser: &mut dyn Chooser) -> (Vec<StepR
         }
         if runnable.is_empty() {
             if let Some(d) = msched::next_deadline() {
+                // a long jump is made in growing strides (1 s, 2 s, 4 s, ...): a timer the scenario does not know of
+                // (one that the code under test sets for itself) fires on the way instead of being leapt over
+                let now = msched::now();
+                if d - now > 1000 {
+                    let cp = (now + big_stride).min(d);
+                    big_stride = big_stride.saturating_mul(2);
+                    if cp < d {
+                        msched::advance_to(cp).await;
+                        let woke = (0..n).any(|o| msched::status(o) == St::Runnable);
+                        if woke {
+                            ev(EvK::Advance { to: cp });
+                        }
+                        actions += 1;
+                        continue;
+                    }
+                }
+                big_stride = 1000;
                 ev(EvK::Advance { to: d });
                 msched::advance_to(d).await;
                 actions += 1;
